@@ -213,7 +213,14 @@ def check_single(ctx, mb, where, classify):
             ctx.close("chi2_probability", got_p, ep, tol=Tol.custom("PROB", 1e-7, 1e-10), key=lambda: classify("chi2_probability"), detail={"where": where, "cost_without_det": c, "ndf": exp_ndf})
     else:
         ctx.check("chi2_probability", got_p is None, {"got": got_p, "expected": None, "where": where}, key=lambda: classify("chi2_probability"))
-    rd = fit.get_result_dict()
+    try:
+        rd = fit.get_result_dict()
+    except Exception as e:
+        # the numerical Hessian at a degenerate optimum has no answer (nan-symmetry assertion, singular matrix): not a statement about ndf / gof
+        if numerical_failure(e):
+            ctx.discard("result-dict-numerical-hessian-failed")
+            return False  # the aborted Hessian computation leaves the fit displaced (C08's business): the history ends here
+        raise
     if eg is None:
         ctx.check("gof/ndf", rd["gof/ndf"] is None, {"got": rd["gof/ndf"], "where": where})
     elif exp_ndf != 0:
@@ -269,7 +276,8 @@ def run_single(ctx, case):
             dsl.apply_live(mb.fit, spec, op)
             dsl.apply_ref(mb.ref, spec, op)
         n0 = sum(ctx._wit_per_key.values())
-        check_single(ctx, mb, "after op %d %s" % (i, op[0]), classify)
+        if check_single(ctx, mb, "after op %d %s" % (i, op[0]), classify) is False:
+            break
         if sum(ctx._wit_per_key.values()) != n0:
             break
     return nontrivial
